@@ -520,6 +520,14 @@ func seqProfile(prop string, rng *simrt.Rng, tier string) (*Profile, map[string]
 		k["fsck_every"] = 6
 		disk = uint64(30000 + rng.Intn(30000))
 	}
+	switch prop {
+	case "C02", "C05", "C08", "C09", "C10", "C12", "C19":
+		// a quarter of the runs: allocators that hand out the lowest free number (a
+		// block or inode number freed a moment ago is reused by the next request)
+		if rng.Chance(0.25) {
+			k["alloc_lowest"] = 1
+		}
+	}
 	return p, k, disk
 }
 
@@ -1074,6 +1082,10 @@ func (x *seqRun) main() {
 	x.base = x.d.Current()
 	x.traceStart = len(x.d.Trace)
 	fsckEvery := int(spec.knob("fsck_every", 0))
+	if spec.knob("alloc_lowest", 0) != 0 {
+		simrt.AllocLowest = true
+		defer func() { simrt.AllocLowest = false }()
+	}
 	if spec.knob("allocfail", 0) != 0 {
 		frng := simrt.Stream(spec.Seed, "faults")
 		simrt.FaultHook = func(site string) bool {
